@@ -415,7 +415,7 @@ def g_fields(fields, ctr):
                 g_bool(bool(nd["fd"].get("flag"))))
         if nd["t"] == "sub":
             return "(%s,(NSub %s %s %s))" % (g_str(k), g_bool(nd["dyn"]), g_list(nd["vals"], g_n), g_fields(nd["fields"], ctr))
-        return "(%s,(NCfgList %s %s %s))" % (g_str(k), g_bool(nd["required"]), g_list(nd["vals"], g_n), g_fields(nd["fields"], ctr))
+        return "(%s,(NCfgList %s %s %s None))" % (g_str(k), g_bool(nd["required"]), g_list(nd["vals"], g_n), g_fields(nd["fields"], ctr))
     return g_list(fields, one)
 
 
